@@ -154,7 +154,7 @@ def apply_config_overrides(cfg, overrides):
         f.write(t)
 
 
-def gen_headers(dest, hashes=None, obsolete_api=None, config_overrides=None):
+def gen_headers(dest, hashes=None, obsolete_api=None, config_overrides=None, compat_abi=None):
     """Generate crypt.h, crypt-hashes.h, crypt-symbol-vers.h, libcrypt.map in
     dest with the repository's own scripts.  hashes: list of enabled method
     names (default: all)."""
@@ -179,6 +179,8 @@ def gen_headers(dest, hashes=None, obsolete_api=None, config_overrides=None):
     mv = _makefile_vars()
     if obsolete_api is False:
         mv["COMPAT_ABI"] = "no"
+    if compat_abi:
+        mv["COMPAT_ABI"] = compat_abi       # --enable-obsolete-api=glibc|alt|owl|suse
     env = dict(os.environ, LC_ALL="C")
     sv = ["SYMVER_MIN=" + mv["SYMVER_MIN"], "SYMVER_FLOOR=" + mv["SYMVER_FLOOR"],
           "COMPAT_ABI=" + mv["COMPAT_ABI"]]
